@@ -408,6 +408,12 @@ def harnesses(tier):
                         hs.append(Harness('histogram n=%d bins=%d weights=%s subset=%s rev=%s' % (nval, nb, wts, sub, rev), body_histogram,
                                           params=dict(n=nval, bins=nb, weights=wts, subset=sub, reversed_range=rev), validate=40,
                                           weight=6, wall_s=3400, bounds=dict(values=nval, bins=nb, weights=wts, subset=sub, reversed=rev)))
-        hs.append(Harness('histogram 2-d n=3', body_histogram, params=dict(n=3, bins=2, subset='mask', two_d=True, weights=True),
-                          validate=40, wall_s=3400, bounds=dict(values=3, bins=(2, 2))))
+        hs.append(Harness('histogram 2-d n=3', body_histogram, params=dict(n=3, bins=2, subset='none', two_d=True),
+                          validate=40, wall_s=3400, query_timeout_ms=120000, bounds=dict(values=3, bins=(2, 2))))
+        hs.append(Harness('histogram 2-d n=2 weights mask', body_histogram, params=dict(n=2, bins=2, subset='mask', two_d=True, weights=True),
+                          validate=40, wall_s=3400, query_timeout_ms=120000, bounds=dict(values=2, bins=(2, 2), weights=True, subset='mask')))
+        for sub, wts in (('mask', False), ('none', True), ('ineq', False)):
+            hs.append(Harness('histogram log n=3 bins=3 weights=%s subset=%s' % (wts, sub), body_histogram,
+                              params=dict(n=3, bins=3, weights=wts, subset=sub, log=True), validate=40, weight=4, wall_s=3400,
+                              bounds=dict(values=3, bins=3, weights=wts, subset=sub, log=True, range=[list(r) for r in LOG_RANGES])))
     return hs
